@@ -1,6 +1,9 @@
 package main
 
 import (
+	"github.com/smallnest/rpcx/protocol"
+	"sync/atomic"
+	"sync"
 	"context"
 	"fmt"
 	"net/url"
@@ -341,7 +344,161 @@ func c12RunX(o *common.Out, id string, kind string, ops []c12op) {
 	o.ImplOnly(id, abstract, nontrivial)
 }
 
+// a select plugin that parks one selection inside the wrapped select function
+type parkSelect struct {
+	mu      sync.Mutex
+	armed   bool
+	entered chan struct{}
+	release chan struct{}
+}
+
+func (p *parkSelect) WrapSelect(fn client.SelectFunc) client.SelectFunc {
+	return func(ctx context.Context, sp, sm string, args interface{}) string {
+		p.mu.Lock()
+		hit := p.armed
+		p.armed = false
+		p.mu.Unlock()
+		if hit {
+			close(p.entered)
+			<-p.release
+		}
+		return fn(ctx, sp, sm, args)
+	}
+}
+
+var c12seq int64
+
+// c12Overlap: two calls of one XClient select at overlapping times (the first is parked inside a select plugin when the
+// second starts); over whole windows every server is still picked exactly weight times.  Oracle only (which of the
+// two overlapping calls gets which server is not fixed; the counts are).  case: overlap|<kind>|<warm>
+func c12Overlap(o *common.Out, id, kind string, warm int) {
+	abstract := fmt.Sprintf("overlap|%s|%d", kind, warm)
+	o.Begin(id, abstract)
+	o.Count("overlapping-selections")
+	uid := atomic.AddInt64(&c12seq, 1)
+	weights := []int{4, 2, 1}
+	mode := client.WeightedRoundRobin
+	if kind == "rr" {
+		weights = []int{1, 1, 1}
+		mode = client.RoundRobin
+	}
+	W := 0
+	log := &attemptLog{}
+	var pairs []*client.KVPair
+	var addrs []string
+	for i, w := range weights {
+		W += w
+		addr := fmt.Sprintf("c12-%d-s%d", uid, i)
+		registerFake(addr, &fakeServer{id: i, fixed: "ok1", log: log})
+		addrs = append(addrs, addr)
+		meta := ""
+		if kind != "rr" {
+			meta = fmt.Sprintf("weight=%d", w)
+		}
+		pairs = append(pairs, &client.KVPair{Key: "vsrv@" + addr, Value: meta})
+	}
+	defer func() {
+		for _, a := range addrs {
+			unregisterFake(a)
+		}
+	}()
+	d, _ := client.NewMultipleServersDiscovery(pairs)
+	opt := client.DefaultOption
+	opt.SerializeType = protocol.JSON
+	opt.Heartbeat = false
+	xc := client.NewXClient("Svc", client.Failfast, mode, d, opt)
+	defer xc.Close()
+	ps := &parkSelect{entered: make(chan struct{}), release: make(chan struct{})}
+	pc := client.NewPluginContainer()
+	pc.Add(ps)
+	xc.SetPlugins(pc)
+	call := func() error {
+		var reply int
+		ctx, cancel := context.WithTimeout(context.Background(), 3*time.Second)
+		defer cancel()
+		return xc.Call(ctx, "M", 1, &reply)
+	}
+	rounds := (warm + 2 + W - 1) / W
+	if rounds < 2 {
+		rounds = 2
+	}
+	total := rounds * W
+	done := 0
+	for ; done < warm; done++ {
+		if err := call(); err != nil {
+			o.Fail(id, "rig", "warm-up call failed: "+err.Error(), abstract)
+			return
+		}
+	}
+	ps.mu.Lock()
+	ps.armed = true
+	ps.mu.Unlock()
+	r1, r2 := make(chan error, 1), make(chan error, 1)
+	go func() { r1 <- call() }()
+	select {
+	case <-ps.entered:
+	case <-time.After(3 * time.Second):
+		o.Fail(id, "rig", "the first call never reached the select plugin", abstract)
+		close(ps.release)
+		return
+	}
+	go func() { r2 <- call() }()
+	var e2 error
+	got2 := false
+	select { // the second call runs as far as it can: to its end, or to the lock the first selection holds
+	case e2 = <-r2:
+		got2 = true
+	case <-time.After(40 * time.Millisecond):
+	}
+	close(ps.release)
+	e1 := <-r1
+	if !got2 {
+		e2 = <-r2
+	}
+	if e1 != nil || e2 != nil {
+		o.Fail(id, "rig", fmt.Sprintf("the overlapping calls failed: %v / %v", e1, e2), abstract)
+		return
+	}
+	for done += 2; done < total; done++ {
+		if err := call(); err != nil {
+			o.Fail(id, "rig", "call failed: "+err.Error(), abstract)
+			return
+		}
+	}
+	counts := make([]int, len(weights))
+	att := log.snapshot()
+	for _, a := range att {
+		var sid int
+		fmt.Sscanf(a, "s%d:", &sid)
+		if sid >= 0 && sid < len(counts) {
+			counts[sid]++
+		}
+	}
+	for i, w := range weights {
+		if counts[i] != rounds*w {
+			o.Fail(id, "xclient-window", fmt.Sprintf("%d calls (two of them selecting at overlapping times) over servers of weights %v were served %v times; every server must be picked %d times its weight (arrival order %v)", total, weights, counts, rounds, att), abstract)
+			break
+		}
+	}
+	o.ImplOnly(id, abstract, true)
+}
+
 func runC12(r *common.Rand, tier string, o *common.Out, replay string) {
+	if strings.HasPrefix(replay, "overlap|") {
+		p := strings.Split(replay, "|")
+		w, _ := strconv.Atoi(p[2])
+		c12Overlap(o, "replay", p[1], w)
+		return
+	}
+	if replay == "" {
+		k := 0
+		for _, kind := range []string{"wrr", "rr"} {
+			for _, warm := range []int{0, 1, 3, 5} {
+				k++
+				c12Overlap(o, fmt.Sprintf("ovl%d", k), kind, warm)
+			}
+		}
+	}
 	if replay != "" {
 		if strings.HasPrefix(replay, "x|") {
 			kind, ops := c12Decode(replay[2:])
